@@ -85,8 +85,10 @@ class SuffixTrie(object):
             child = node.children.get(part)
 
             # Wildcards
+            wildcard = node.children.get("*")
+
             if child is None:
-                child = node.children.get("*")
+                child = wildcard
 
             # If the current part is not in current node's children, we can stop
             if child is None:
@@ -96,7 +98,9 @@ class SuffixTrie(object):
             current_length += 1
             node = child
 
-            if node.leaf:
+            # NOTE: a wildcard rule matches this part even when the part
+            # also happens to start a longer rule
+            if node.leaf or (wildcard is not None and wildcard.leaf):
                 suffix_length = current_length
                 match = node
 
